@@ -145,6 +145,11 @@ def _parse_path(spec):
 
 
 def extract_type(repo, spec, ex):
+    keep = None
+    m = re.search(r'\n\s*derive\s+(.+)$', spec.strip())
+    if m:
+        keep = m.group(1).strip()     # R1 exception: re-emit `#[derive(<listed traits>)]` (needed when a body formats the type)
+        spec = spec.strip()[:m.start()]
     rel, sels = _parse_path(spec)
     f = _file(repo, rel)
     kind, name, istart, hend, iend = f.locate(sels)
@@ -153,6 +158,12 @@ def extract_type(repo, spec, ex):
     text = rsscan.strip_attributes(text, msk)
     text = _pubify_item(text)
     text = _pubify_fields(text, kind)
+    if keep:
+        orig = f.src[max(0, istart - 400):istart] + f.src[istart:iend]
+        for tr in [x.strip() for x in keep.split(',')]:
+            if not re.search(r'#\[derive\([^)]*\b' + re.escape(tr) + r'\b', f.src[max(0, istart - 400):istart]):
+                raise ExtractError(f'{spec}: source item does not derive {tr}')
+        text = f'#[derive({keep})]\n' + text
     ex.items.append(dict(kind=kind, source=rel, selector=' :: '.join(sels), sha=_sha(f.src[istart:iend]), name=name))
     return text
 
@@ -329,6 +340,10 @@ def extract_fn(repo, header, contract, ex, body_only=False):
             opts['break_to_return'] = True
             cur = None
             continue
+        if l == 'nopub':
+            opts['nopub'] = True
+            cur = None
+            continue
         if l == 'plain':
             opts['plain'] = True
             cur = None
@@ -359,7 +374,9 @@ def extract_fn(repo, header, contract, ex, body_only=False):
     if body_only or opts['nosig']:
         body2 = _apply_loops(body, opts['loops'], opts['break_to_return'], opts['proofs'], ex, label, ret_type=ret)
         return (contract or '') + body2
-    head = _pubify_item(rsscan.strip_attributes(head, rsscan.mask(head)).lstrip())
+    head = rsscan.strip_attributes(head, rsscan.mask(head)).lstrip()
+    if not opts.get('nopub'):
+        head = _pubify_item(head)
     if opts['name']:
         head = re.sub(r'\bfn\s+' + re.escape(name) + r'\b', 'fn ' + opts['name'], head, count=1)
     for an in opts.get('assoc', []):
@@ -398,7 +415,8 @@ def extract_fn(repo, header, contract, ex, body_only=False):
 
 
 def extract_lalrpop_action(repo, spec, ex):
-    """spec: `<file> :: rule <Rule> :: action <k>` -> the k-th `=> <expr>,` action expression of the rule."""
+    """spec: `<file> :: rule <Rule> :: action <k>` -> the k-th alternative's action expression of the rule.
+    Handles both `Rule: T = { alt, alt };` and the single-alternative form `Rule: T = symbols => action;`."""
     rel, sels = _parse_path(spec)
     p = os.path.join(repo, rel)
     if not os.path.exists(p):
@@ -408,31 +426,51 @@ def extract_lalrpop_action(repo, spec, ex):
     rm = re.match(r'rule\s+(\S+)', sels[0])
     am = re.match(r'action\s+(\d+)', sels[1])
     rule, k = rm.group(1), int(am.group(1))
-    # rule header: `Name: Type = {` or `Name<T>: Type = {` at line start; allow `pub `
-    hm = re.search(r'(?m)^(?:pub\s+)?' + re.escape(rule) + r'\s*(?:<[^>]*>)?\s*:\s*([^=]+?)\s*=\s*\{', msk)
+    hm = re.search(r'(?m)^(?:pub\s+)?' + re.escape(rule) + r'\s*(?:<[^>]*>)?\s*:\s*([^=]+?)\s*=(?![=>])\s*', msk)
     if not hm:
         raise ExtractError(f'lost anchor: lalrpop rule {rule}')
     ty = src[hm.start(1):hm.end(1)].strip()
-    bopen = hm.end() - 1
-    bclose = rsscan.match_close(msk, bopen)
-    body = src[bopen + 1:bclose]
-    bm = msk[bopen + 1:bclose]
-    # alternatives are separated by ',' at depth 0; each is `<symbols> => <action>` or `<symbols> =>? <action>`
+    pos = hm.end()
+    if msk[pos] == '{':
+        bopen = pos
+        bclose = rsscan.match_close(msk, bopen)
+        a0, b0 = bopen + 1, bclose
+    else:
+        # single alternative: up to the `;` at bracket depth 0
+        depth = 0
+        q = pos
+        while q < len(msk):
+            ch = msk[q]
+            if ch in '([{':
+                depth += 1
+            elif ch in ')]}':
+                depth -= 1
+            elif ch == ';' and depth == 0:
+                break
+            q += 1
+        a0, b0 = pos, q
+    body = src[a0:b0]
+    bm = msk[a0:b0]
     alts = []
     depth = 0
+    adepth = 0
     last = 0
     for i, ch in enumerate(bm):
         if ch in '([{':
             depth += 1
         elif ch in ')]}':
             depth -= 1
-        elif ch == ',' and depth == 0:
+        elif ch == '<' and not (i > 0 and bm[i - 1] in '=') and depth == 0:
+            adepth += 1
+        elif ch == '>' and adepth > 0 and not (i > 0 and bm[i - 1] in '=-') and depth == 0:
+            adepth -= 1
+        elif ch == ',' and depth == 0 and adepth == 0:
             alts.append((last, i))
             last = i + 1
     if bm[last:].strip():
         alts.append((last, len(bm)))
     if k >= len(alts):
-        raise ExtractError(f'lalrpop rule {rule}: action {k} not found')
+        raise ExtractError(f'lalrpop rule {rule}: action {k} not found ({len(alts)} alternatives)')
     a, b = alts[k]
     alt = body[a:b]
     altm = bm[a:b]
@@ -442,12 +480,14 @@ def extract_lalrpop_action(repo, spec, ex):
     fallible = altm[arrow + 2:arrow + 3] == '?'
     symbols = alt[:arrow].strip()
     action = alt[arrow + (3 if fallible else 2):].strip()
+    nm = re.search(r'<\s*(?:mut\s+)?([A-Za-z_][A-Za-z0-9_]*)\s*:', symbols)
+    param = nm.group(1) if nm else 'tok'
     ex.items.append(dict(kind='lalrpop-action', source=rel, selector=f'rule {rule} :: action {k}', sha=_sha(alt), name=f'{rule}_action{k}',
                          symbols=symbols, fallible=fallible, result_type=ty))
-    return dict(symbols=symbols, action=action, fallible=fallible, result_type=ty)
+    return dict(symbols=symbols, action=action.replace('<>', param), fallible=fallible, result_type=ty, param=param)
 
 
-_DIR = re.compile(r'/\*@(type|macro|fn|body|expr)\b(.*?)@\*/', re.S)
+_DIR = re.compile(r'/\*@(type|macro|fn|body|expr|action)\b(.*?)@\*/', re.S)
 
 
 def build_unit(repo, template_text):
@@ -471,7 +511,22 @@ def build_unit(repo, template_text):
             out.append(extract_fn(repo, arg, None, ex, body_only=True))
         elif kind == 'expr':
             d = extract_lalrpop_action(repo, arg.strip(), ex)
-            out.append(d['action'].replace('<>', 'tok'))
+            out.append(d['action'])
+        elif kind == 'action':
+            # /*@action <file> :: rule R :: action k \n fn <name> \n ret <type> \n [symbols <regex the alternative's symbols must match>] @*/ contract /*@end*/   (rule R5)
+            e = template_text.find('/*@end*/', pos)
+            if e < 0:
+                raise ExtractError('missing /*@end*/')
+            contract = template_text[pos:e]
+            pos = e + len('/*@end*/')
+            lines = [l.strip() for l in arg.strip().splitlines() if l.strip()]
+            d = extract_lalrpop_action(repo, lines[0], ex)
+            o = dict(l.split(None, 1) for l in lines[1:])
+            if 'symbols' in o and not re.search(o['symbols'], d['symbols']):
+                raise ExtractError(f"lost anchor: {lines[0]}: symbols `{d['symbols']}` do not match /{o['symbols']}/")
+            ex.items[-1]['name'] = o['fn']
+            ex.items[-1]['kind'] = 'fn'
+            out.append(f"pub fn {o['fn']}({d['param']}: &str) -> (r: {o['ret']})\n{contract.rstrip()}\n{{\n    {d['action']}\n}}")
         elif kind == 'fn':
             e = template_text.find('/*@end*/', pos)
             if e < 0:
